@@ -70,6 +70,7 @@ def generate(rng, tier):
                  'parse_buf 0 ' + hx(b'm { p = w pl += {x} }\n'), 'parse_buf 0 ' + hx(b'pl = {'), 'parse_buf 0 ' + hx(b'include("inc.conf")\n'),
                  'parse_file 0 ' + hx(b'only.conf'), 'setstr 0 %s - 0' % hx(b's'), 'print 0 0', 'setopt 0 %s %s' % (hx(b'sec|p'), hx(b'v4')),
                  'parse_file 0 ' + hx(b'inc3.conf'), 'parse_buf 0 ' + hx(b'sec { in x { } }\nt one { }\n'), 'parse_buf 0 ' + hx(b'sec { in x {'),
+                 'setstr_self 0 %s 1 0' % hx(b's'), 'setstr_self 0 %s 0 1' % hx(b'sl'), 'setstr_self 0 %s 2 0' % hx(b'sec|s'),
                  'failat 1', 'failat 2', 'failat 0', 'parse_buf 0 ' + hx(b'include("deep1.conf")\n'), 'parse_buf 0 ' + hx(b'sec { include("deep2.conf") }\n'),
                  'setint 0 %s 1 0' % hx(b'i'), 'setmulti 0 %s %s %s' % (hx(b'pl'), hx(b'ok'), hx(b'-'))]
     for _ in range(150 if tier == 'quick' else 4000):
